@@ -86,10 +86,27 @@ pub fn check_bytes(bytes: &[u8], with_scalar_hook: bool) -> Result<(), String> {
 }
 
 pub fn check_hashn(c: &mut Case, bytes: &[u8]) -> Result<(), String> {
-    let name: Vec<u8> = (0..c.rng.below(12)).map(|_| (c.rng.next() & 0xff) as u8).collect();
+    let nlen = if c.rng.chance(1, 3) { c.rng.range(60, 140) } else { c.rng.below(12) };
+    let name: Vec<u8> = (0..nlen).map(|_| (c.rng.next() & 0xff) as u8).collect();
     let a = DnaString::from_acgt_bytes_hashn(bytes, &name);
+    // calls for sibling read names in between (same length, long common prefix, different tail, and a
+    // different length): the result for `name` must not depend on what was converted before
+    if !name.is_empty() {
+        let mut sib = name.clone();
+        let last = sib.len() - 1;
+        sib[last] ^= 0x5a;
+        let s1 = DnaString::from_acgt_bytes_hashn(bytes, &sib);
+        let s2 = DnaString::from_acgt_bytes_hashn(bytes, &sib);
+        ensure!(s1 == s2, "from_acgt_bytes_hashn is not repeatable (sibling name)");
+        let mut longer = name.clone();
+        longer.push(b'/');
+        let _ = DnaString::from_acgt_bytes_hashn(bytes, &longer);
+        let first_of_sib_after_other = DnaString::from_acgt_bytes_hashn(bytes, &sib);
+        ensure!(first_of_sib_after_other == s1, "from_acgt_bytes_hashn(read, name) changed after a call with another read name (name length {})", sib.len());
+        c.count("hashn_sibling_name_sequences", 1);
+    }
     let b = DnaString::from_acgt_bytes_hashn(bytes, &name);
-    ensure!(a == b, "from_acgt_bytes_hashn is not repeatable");
+    ensure!(a == b, "from_acgt_bytes_hashn(read, name) gave a different result after calls with other read names (name length {}) - not a function of (read name, position)", name.len());
     ensure!(a.len() == bytes.len(), "hashn: length");
     let av = a.to_bytes();
     for (i, by) in bytes.iter().enumerate() {
@@ -212,6 +229,27 @@ fn c16_random(c: &mut Case) -> Result<(), String> {
     Ok(())
 }
 
+/// long inputs around powers of two: batch / buffer / counter thresholds inside the converter
+fn c16_long(c: &mut Case) -> Result<(), String> {
+    let j = c.rng.range(10, 18);
+    let m = c.rng.range(1, 3);
+    let r = *c.rng.pick(&[-33i64, -32, -31, -1, 0, 1, 5, 31, 32, 33]);
+    let n = (((1i64 << j) * m as i64) + r).max(0) as usize;
+    let style = c.rng.below(3);
+    let bytes: Vec<u8> = (0..n)
+        .map(|_| match style {
+            0 => b"ACGT"[c.rng.below(4)],
+            1 => b"ACGTacgtN"[c.rng.below(9)],
+            _ => if c.rng.chance(1, 50) { (c.rng.next() & 0xff) as u8 } else { b"ACGT"[c.rng.below(4)] },
+        })
+        .collect();
+    check_bytes(&bytes, true)?;
+    c.count("long_strings", 1);
+    c.count("bytes_ingested", n as u64);
+    c.nontrivial(H::new().u(n as u64).u(style as u64).u(c.idx).get());
+    Ok(())
+}
+
 pub const RULE_C16: &str = "exhaustive groups: every byte value 0-255 in every lane 0-31 of a 32-byte block (as a lone block, followed by a 5-byte scalar tail, and as second block), and every length 0-200 with four content styles; sampled group: lengths mixing several vector blocks and a tail, up to 4 KiB, over {ACGTacgtNn}, mostly-valid with arbitrary bytes, arbitrary bytes, and bytes sharing nibbles/high bits with ACGT; each string checked through from_acgt_bytes (vector path) vs byte table, == DnaString::from_bytes, from_dna_string, to_ascii_vec/to_string, forced-scalar path (hook), from_dna_only_string runs, from_acgt_bytes_hashn (ACGT untouched, <= 3, repeatable, substitute independent of other bytes); distinct = hash(bytes)";
 
 /// interpreter-sized exhaustive pass: 256 calls cover every byte value in every lane once
@@ -250,8 +288,11 @@ pub fn run_c16(ctx: &Ctx) {
     ctx.run_group("all_lengths", 201, true, |c| c16_lengths(c));
     let n = ctx.n(1_000_000, 50_000_000);
     ctx.run_group("random", n, false, |c| c16_random(c));
+    ctx.run_group("long", ctx.n(400, 20_000), false, |c| c16_long(c));
     ctx.add_count("avx2_detected", std::is_x86_feature_detected!("avx2") as u64);
     if !ctx.is_miri() {
+        ctx.require("long_strings", 100);
+        ctx.require("hashn_sibling_name_sequences", 1000);
         ctx.require("exhaustive_value_lane_pairs", 256 * 96);
         ctx.require("lengths_covered", 201);
         ctx.require("strings_with_full_blocks_and_tail", 1000);
